@@ -25,6 +25,9 @@
     `isConstRow` (the three tests), `sortedIdx` (`insert(0, idx)` / `append`),
     `permMat`, `partition`, `stationaryDist`. `scipy.linalg.solve` and the
     Bartels–Stewart Lyapunov solver are parameters `sol`, `lyap`.
+  * `LinearStateSpace.__init__` (102-133): `lssCtor` (shape checks in order, defaults, reshape of
+    `mu_0`); `Kalman.stationary_coefficients` (`_kalman.py` 280-314): `coefState`,
+    `stationaryCoefficients`.
   * `geometric_sums` (338-370): `geometricSums`; `impulse_response` (372-408):
     `impulseState` / `impulseResponse`.
   `scipy.linalg.inv` / `solve` are parameters; the driver instantiates them with
@@ -248,6 +251,57 @@ def lssRun (o : LObj α) (ops : List (LOp α)) : LObj α := ops.foldl lssStep o
 
 /-- the moment tuples an instance yields -/
 def LObj.moments (o : LObj α) (k : Nat) : List (Mom α) := momentSeq o.A o.C o.G o.H o.mu0 o.Sig0 k
+
+/-! ### the constructor's argument handling (`_lss.py` 102-133) -/
+
+inductive CtorOut (α : Type) where
+  /-- the instance, with `n`, `m`, `k` and `l` (`None` without `H`) -/
+  | ok (o : LObj α) (n m k : Nat) (l : Option Nat)
+  /-- `ValueError`; `which` = 1: `A` not square (line 107), 2: `C` has the wrong number of rows (110),
+      3: `G` has the wrong number of columns (115), 4: `mu_0` cannot be reshaped to `n × 1` (129) -/
+  | valueError (which : Nat)
+
+/-- `np.reshape`-in-place of a converted `mu_0` to `(n, 1)`: row-major order -/
+def reshapeCol (X : M α) (n : Nat) : M α := M.tab n 1 fun i _ => X.get (i / X.nc) (i % X.nc)
+
+/-- `LinearStateSpace.__init__` on 2-D inputs: the three shape checks in the code's order, the
+    defaults `mu_0 = zeros((n,1))`, `Sigma_0 = zeros((n,n))`, `H = None`, and NO check on the
+    shapes of `H` and `Sigma_0` -/
+def lssCtor (A C G : M α) (H mu0 Sig0 : Option (M α)) : CtorOut α :=
+  if A.nr ≠ A.nc then .valueError 1
+  else if A.nr ≠ C.nr then .valueError 2
+  else if G.nc ≠ A.nr then .valueError 3
+  else
+    let n := A.nr
+    let S0 : M α := match Sig0 with | some S => S | none => zero n n
+    match mu0 with
+    | none => .ok ⟨A, C, G, H, zero n 1, S0⟩ n C.nc G.nr (H.map (·.nc))
+    | some mu =>
+      if mu.nr * mu.nc ≠ n then .valueError 4
+      else .ok ⟨A, C, G, H, reshapeCol mu n, S0⟩ n C.nc G.nr (H.map (·.nc))
+
+/-! ### `Kalman.stationary_coefficients` (`_kalman.py` 280-314) -/
+
+inductive CoefType where
+  | ma
+  | var
+
+/-- `(P, coeffs)` after `i` passes of the `while i <= j` loop, started from `(P0, [c0])` -/
+def coefState (G K Pmat P0 c0 : M α) : Nat → M α × List (M α)
+  | 0 => (P0, [c0])
+  | i + 1 =>
+    let st := coefState G K Pmat P0 c0 i
+    (mmul st.1 Pmat, st.2 ++ [mmul (mmul G st.1) K])
+
+/-- `stationary_coefficients(j, coeff_type)` given `K_infinity`: `'ma'` starts from
+    `(I_k, P_mat = A, P = I_n)`, `'var'` from `(G K, P_mat = A − K G, P = P_mat)`;
+    an unknown type is the `ValueError` handled by the driver -/
+def stationaryCoefficients (A G K : M α) (ty : CoefType) (j : Nat) : List (M α) :=
+  match ty with
+  | .ma => (coefState G K A (ident A.nr) (ident G.nr) j).2
+  | .var =>
+    let Pm := msub A (mmul K G)
+    (coefState G K Pm Pm (mmul G K) j).2
 
 /-! ### impulse response, geometric sums -/
 
@@ -551,6 +605,34 @@ def handle (toks : List String) : String :=
         | none => "ERR:LinAlgError"
       else "bad-op"
     | _, _, _, _ => "bad-op"
+  | "ctor" :: r =>
+    -- LinearStateSpace(A, C, G, H, mu_0, Sigma_0) on 2-D inputs of ARBITRARY shapes
+    let optM (key : String) : Option (Option (List (List Rat))) :=
+      match kv r key with
+      | none => some none
+      | some "none" => some none
+      | some _ => (kvRatMat r key).map some
+    match kvRatMat r "A", kvRatMat r "C", kvRatMat r "G", optM "H", optM "mu0", optM "S0" with
+    | some A, some C, some G, some H, some mu0, some S0 =>
+      if rect A && rect C && rect G && (H.all rect) && (mu0.all rect) && (S0.all rect) then
+        match lssCtor (matOf A) (matOf C) (matOf G) (H.map matOf) (mu0.map matOf) (S0.map matOf) with
+        | .ok o n m k l =>
+          let ls := match l with | some v => toString v | none => "none"
+          s!"ok n={n} m={m} k={k} l={ls} mu0={showE o.mu0} S0={showE o.Sig0}"
+        | .valueError w => s!"ERR:ValueError check={w}"
+      else "bad-op"
+    | _, _, _, _, _, _ => "bad-op"
+  | "statcoef" :: r =>
+    match kvRatMat r "A", kvRatMat r "G", kvRatMat r "K", kvInt r "j", kv r "type" with
+    | some A, some G, some K, some j, some ty =>
+      let n := A.length
+      let k := G.length
+      if rect A && dims A n n && rect G && ncols G == n && dims K n k && j ≤ 32 then
+        match (if ty == "ma" then some CoefType.ma else if ty == "var" then some CoefType.var else none) with
+        | some t => s!"ok {showMats "c" showE (stationaryCoefficients (matOf A) (matOf G) (matOf K) t j.toNat)}"
+        | none => "ERR:ValueError"
+      else "bad-op"
+    | _, _, _, _, _ => "bad-op"
   | "partition" :: r =>
     match kvRatMat r "A", kvRatMat r "C" with
     | some A, some C =>
